@@ -149,3 +149,13 @@ def extra(ctx):
 
 def known_signature(f, kf):
     return kf["id"] == "F-COHERENCE" and not R.coherent(f.case["costs"])
+
+
+def replay_case(payload):
+    """relations_big findings: the seven minima recomputed on the stored input"""
+    case = payload["case"]
+    v = _seven_big(case)
+    ok, why = relations(case, v)
+    if ok and len(v) == 7 and v[6] != v[1]:
+        ok, why = False, f"exhaustive minimum {v[6]} differs from the DTL minimum {v[1]}"
+    return ok, why, v
